@@ -30,7 +30,7 @@ RULE = ("every top-level class of both versions (embedded types, extensions and 
 ASSUMPTIONS = [
     "timestamps with more than six fractional digits are not generated here (their refusal is recorded under C03)",
     "lone surrogates are not generated",
-    "pretty order is judged on top-level specification-defined keys only, and only when sort_keys is not requested as well",
+    "pretty order is judged at top level only, and only when sort_keys is not requested as well: specification-defined keys in specification order, keys the specification does not define (custom, toplevel-extension) after them",
 ]
 VERSIONS = ["2.0", "2.1"]
 
@@ -91,6 +91,13 @@ def spec_order_ok(version, type_name, keys):
     idx = [order.index(k) for k in keys if k in order]
     if idx != sorted(idx):
         return False, [k for k in keys if k in order]
+    # properties the specification does not define (custom, toplevel-extension) have no place *among* the specified ones
+    seen_unspecified = False
+    for k in keys:
+        if k not in order:
+            seen_unspecified = True
+        elif seen_unspecified:
+            return False, keys
     return True, None
 
 
@@ -237,7 +244,7 @@ def build(ctx, version, o, route, rng):
             if route == "parse":
                 return stix2.parse(json.dumps(o), allow_custom=True)
             cls = cls_for(version, o["type"])
-            kw = native.to_native(version, o, rng)
+            kw = native.to_native(version, o, rng, over_precise=True)
             return cls(allow_custom=True, **kw)
     except Exception as e:
         ctx.skip("construction refused (%s) -- C03's subject, not round trip" % type(e).__name__)
